@@ -428,9 +428,16 @@ def normalize(got, want, runstate=None):
         want = re.sub(r'\s', '', want, flags=re.MULTILINE)
 
     if runstate['NORMALIZE_REPR']:
-        def norm_repr(a, b):
+        def norm_repr(a, b, a_is_got):
             # If removing quotes would allow for a match, remove them.
-            if not _check_match(a, b, runstate):
+            def _matches(a_):
+                # the want is always the pattern, also when it is the text
+                # whose quotes are removed
+                if a_is_got:
+                    return _check_match(a_, b, runstate)
+                else:
+                    return _check_match(b, a_, runstate)
+            if not _matches(a):
                 for q in ['"', "'"]:
                     if len(a) >= 2 and a.startswith(q) and a.endswith(q):
                         inner = a[1:-1]
@@ -438,11 +445,11 @@ def normalize(got, want, runstate=None):
                             # whitespace next to the removed quotes is now
                             # leading / trailing whitespace
                             inner = inner.strip()
-                        if _check_match(inner, b, runstate):
+                        if _matches(inner):
                             return inner
             return a
-        got = norm_repr(got, want)
-        want = norm_repr(want, got)
+        got = norm_repr(got, want, True)
+        want = norm_repr(want, got, False)
 
     return got, want
 
